@@ -68,6 +68,39 @@ inline MeshGL64 cubeWithProps() {
   return o;
 }
 
+// Two solid wedges (double pyramids over a 120 degree sector with n arc vertices) that touch along their
+// common spine A-B, as ONE mesh with shared indices: the edge A-B is used by four triangles and both end
+// points have 2n+1 neighbours (n = 40 crosses the 32-neighbour switch of the duplicate-edge clean-up).
+inline MeshGL twoWedges(int n) {
+  const double kPi = 3.14159265358979323846;
+  MeshGL mesh;
+  mesh.numProp = 3;
+  auto addVert = [&](double x, double y, double z) {
+    mesh.vertProperties.insert(mesh.vertProperties.end(), {(float)x, (float)y, (float)z});
+    return (uint32_t)(mesh.vertProperties.size() / 3 - 1);
+  };
+  const uint32_t A = addVert(0, 0, 1), B = addVert(0, 0, -1);
+  std::vector<uint32_t> arc[2];
+  for (int w = 0; w < 2; ++w) {
+    const double sign = w == 0 ? 1.0 : -1.0;
+    for (int i = 0; i < n; ++i) {
+      const double phi = (-60.0 + 120.0 * i / (n - 1)) * kPi / 180.0;
+      arc[w].push_back(addVert(sign * 2 * std::cos(phi), sign * 2 * std::sin(phi), 0));
+    }
+  }
+  auto tri = [&](uint32_t a, uint32_t b, uint32_t c) { mesh.triVerts.insert(mesh.triVerts.end(), {a, b, c}); };
+  tri(B, A, arc[0][n - 1]);
+  tri(A, B, arc[1][0]);
+  for (int w = 0; w < 2; ++w)
+    for (int i = 0; i + 1 < n; ++i) {
+      tri(A, arc[w][i], arc[w][i + 1]);
+      tri(B, arc[w][i + 1], arc[w][i]);
+    }
+  tri(B, A, arc[1][n - 1]);
+  tri(A, B, arc[0][0]);
+  return mesh;
+}
+
 inline std::vector<Seed> seeds() {
   using M = Manifold;
   std::vector<Seed> s;
@@ -123,6 +156,10 @@ inline std::vector<Seed> seeds() {
     });
   }, true);
   add("FlatCube", [] { return M::Cube().Scale({1, 1, 0}); }, true);
+  add("TwoWedges8", [] { return M(twoWedges(8)); }, true);
+  add("TwoWedges40", [] { return M(twoWedges(40)); }, true);
+  add("ConeRing", [=] { return M::Extrude(ring, 1, 0, 0, {0, 0}); }, true);
+  add("ConeTwoTri", [] { return M::Extrude({{{0, 0}, {1, 0}, {0, 1}}, {{2, 0}, {3, 0}, {2, 1}}}, 1, 1, 15, {0, 0}); }, true);
   add("Empty", [] { return M(); }, true);
   add("Invalid", [] { return M::Cylinder(-1, 1); }, true);
   return s;
